@@ -85,10 +85,14 @@ def coded(n, ncol, with_w, dtype):
     return X, y, w
 
 
-def check_table(ctx, cfg, n, past, delay1, delay2, ncol, out, weights_given):
-    """Provenance check of a (same_rows=False) table produced from coded inputs."""
+def check_table(ctx, cfg, n, past, delay1, delay2, ncol, out, weights_given, offset=0.0):
+    """Provenance check of a (same_rows=False) table produced from coded inputs (series = index + offset)."""
     K = "C20/build_ts_X_y/"
     nx, ny, nw = out
+    if offset:
+        nx = numpy.array(nx, dtype=float)
+        ny = numpy.array(ny, dtype=float) - offset
+        nx[:, ncol:] -= offset
     nrow = n - delay2 - past + 2
     ok = True
     if nx.shape[0] != nrow or ny.shape[0] != nrow:
@@ -188,6 +192,13 @@ def run_table(case, ctx):
             continue
         cfg = {"n": n, "past": past, "delay2": delay2, "ncol": ncol, "weights": with_w, "dtype": dtype}
         X, y, w = coded(n, ncol, with_w, dtype)
+        # the exogenous block may come in another dtype than the series (counts, float32 sensors): the lags
+        # are values of the series and must not be cast through it
+        xkind = ["same", "same", "int64", "float32"][(n + past + ncol) % 4] if ncol and dtype == "float64" else "same"
+        if xkind != "same":
+            X = X.astype(xkind)
+            y = y + 0.25          # non-integer series: a cast through an integer dtype cannot go unnoticed
+        cfg["exog_dtype"] = xkind
         keep = [None if a is None else a.copy() for a in (X, y, w)]
         m = make_model((past + delay2 + ncol + n) % 4, past, delay2)
         try:
@@ -197,7 +208,7 @@ def run_table(case, ctx):
             ctx.violation("C20/build_ts_X_y/raised", "%s: %s" % (type(e).__name__, e), cfg=cfg)
             continue
         ctx.hit("build_ts_X_y.table")
-        check_table(ctx, cfg, n, past, 1, delay2, ncol, plain, with_w)
+        check_table(ctx, cfg, n, past, 1, delay2, ncol, plain, with_w, offset=0.25 if xkind != "same" else 0.0)
         ctx.hit("build_ts_X_y.same_rows")
         check_same_rows(ctx, cfg, n, plain, padded, w)
         for a, k in zip((X, y, w), keep):
@@ -205,6 +216,8 @@ def run_table(case, ctx):
                 ctx.violation("C20/build_ts_X_y/input-modified", "the caller's series was written to",
                               cfg=cfg)
         ctx.cls("dtype=%s" % dtype)
+        if xkind != "same":
+            ctx.cls("exog-dtype=%s" % xkind)
         ctx.cls("exog" if ncol else "no-exog")
         if nrow >= 2 and (past >= 2 or delay2 >= 3):
             ctx.nontriv(cfg)
@@ -229,6 +242,9 @@ def run_mape(case, ctx):
     else:
         y = numpy.concatenate([rng.randn(n - n // 2), numpy.zeros(n // 2)])
     ctx.cls("series=" + kind)
+    scale = [1.0, 1.0, 1e-10, 1e10, 1e-4][(case["sub"] // 5) % 5]
+    y = y * scale + (0.0 if (case["sub"] // 25) % 2 else 3.0 * scale)
+    ctx.cls("scale=%g" % scale)
     for with_w in (False, True):
         w = rng.rand(n) + 0.1 if with_w else None
         for prefix in sorted({1, int(rng.randint(1, max(2, n - 1)))}):
@@ -237,7 +253,7 @@ def run_mape(case, ctx):
                 pred[1:] = y[:-1]
                 pred[:prefix] = numpy.nan
                 if first_arbitrary and prefix == 1:
-                    pred[0] = rng.randn() * 100
+                    pred[0] = rng.randn() * 100 * scale
                 cfg = {"n": n, "kind": kind, "weights": with_w, "nan_prefix": prefix,
                        "first_arbitrary": first_arbitrary, "sub": case["sub"]}
                 # denominator of the naive forecast on the scored part
@@ -260,7 +276,7 @@ def run_mape(case, ctx):
                 else:
                     ctx.check(v >= 0, "C20/ts_mape/negative", "ts_mape=%r" % v, cfg=cfg)
         # arbitrary forecasts: non-negativity, and the documented ratio when no NaN
-        pred = y + rng.randn(n) * rng.choice([0.0, 0.1, 3.0])
+        pred = y + rng.randn(n) * rng.choice([0.0, 0.1, 3.0]) * scale
         cfg = {"n": n, "kind": kind, "weights": with_w, "arbitrary": True, "sub": case["sub"]}
         try:
             v = float(ts_mape(y, pred, sample_weight=w))
